@@ -443,6 +443,7 @@ def gen_history(rng, nticks, cov, malformed=False):
             exp = e_state(s2) + e_rehydrate(rh)
             ops.append("OSerde %s" % glist(gz(z) for z in exp))
             cov.hit("serde")
+            monitor.append(("serde", s, s2, py_roundtrip(s2, cfg, scs), cfg))
             if rh:
                 cov.hit("serde_rehydrate_ticks")
             if any(w.in_progress for w in s.workers.values()):
@@ -465,11 +466,17 @@ def gen_history(rng, nticks, cov, malformed=False):
                 rb = CL.rebuild_state_from_ticks(s0, list(py_ticks))
                 exp = [0] + e_state(rb)
                 # C11 monitor: live state == rebuilt state, timestamps aside
-                monitor.append(("rebuild", s, rb))
+                monitor.append(("rebuild", s, rb, cfg))
             except RuntimeError as ex:
                 if str(ex) != "policy bug":
                     raise
                 exp = [-1, 3]
+            except ValueError as ex:
+                exp = [-1, 2]
+                monitor.append(("rebuild-error", s, repr(ex), cfg))
+            except KeyError as ex:
+                exp = [-1, 4]
+                monitor.append(("rebuild-error", s, repr(ex), cfg))
             ops.append("ORebuild %s %s" % (gz(REBUILD_NOW), glist(gz(z) for z in exp)))
             cov.hit("rebuild")
             continue
